@@ -106,7 +106,7 @@ const c15Rule = "parsers over the default, stateful and mapped (Unquote/Upper) l
 	"(differential): Parse from a reader (also a one-byte-at-a-time and a multi-part reader), ParseString, ParseBytes and " +
 	"ParseFromLexer(Upgrade(definition.Lex(...), elided types)) return deeply equal ASTs and identical error texts; Parser.Lex equals the " +
 	"tokens obtained by draining the parser's definition, and Lex/LexString/LexBytes of a definition yield identical streams, also when " +
-	"several lexers of the definition (ported example lexers, the parser's own, generated multi-state rule sets on different inputs) are alive and drained in turns, out of step; with " +
+	"several lexers of the definition (ported example lexers, the parser's own, generated multi-state rule sets, lexer.NewTextScannerLexer with a configuration that keeps comments / scans no floats / widens identifiers, on different inputs) are alive and drained in turns, out of step; with " +
 	"Trace(w) and Trace(nil) the result is identical; a panic that only some entry points raise is a disagreement; definitions are also read through one-byte and data-with-EOF readers; with  ParseFromLexer as the first call on a freshly built parser agrees too; with AllowTrailing the caller's PeekingLexer ends at the first token the " +
 	"reference parser did not consume, by Peek and by raw cursor (generated grammars); non-trivial = mapped lexer, or an error result, or trailing input; " +
 	"distinct by SHA-256 of the case"
